@@ -122,7 +122,6 @@ PROPS = {
         "owns_races": False,
         "floors": {"quick": {"associations": 100, "sessions": 50}, "thorough": {"associations": 1000, "sessions": 500}},
     },
-    "DEBUG1": {"test": "TestVerif_DEBUG1", "level": "exploration", "rule": "debug", "shards": {"quick": 1, "thorough": 1}, "timeout": {"quick": 120, "thorough": 120}},
     "SMOKE": {
         "test": "TestVerif_SMOKE", "level": "exploration", "rule": "harness self-test",
         "shards": {"quick": 1, "thorough": 1}, "timeout": {"quick": 120, "thorough": 120},
